@@ -70,8 +70,8 @@ func (f *fileDecorator) fragment(node ast.Node) {
 
 					// Avoid newlines in multi-line comments
 					if strings.HasPrefix(c.Text, "/*") {
-						startLine := f.Fset.Position(c.Pos()).Line
-						endLine := f.Fset.Position(c.End()).Line
+						startLine := f.position(c.Pos()).Line
+						endLine := f.position(c.End()).Line
 
 						// multi line comment
 						if endLine > startLine {
@@ -102,8 +102,8 @@ func (f *fileDecorator) fragment(node ast.Node) {
 						continue
 					}
 
-					startLine := f.Fset.Position(frag.Pos).Line
-					endLine := f.Fset.Position(frag.Pos + token.Pos(len(frag.String))).Line
+					startLine := f.position(frag.Pos).Line
+					endLine := f.position(frag.Pos + token.Pos(len(frag.String))).Line
 
 					// multi line string
 					if endLine > startLine {
@@ -118,8 +118,8 @@ func (f *fileDecorator) fragment(node ast.Node) {
 					// Newlines inside bad nodes are not printed by the formatter, so there is no
 					// need to reconstruct them in the restorer.
 
-					startLine := f.Fset.Position(frag.Pos).Line
-					endLine := f.Fset.Position(frag.Pos + token.Pos(frag.Length)).Line
+					startLine := f.position(frag.Pos).Line
+					endLine := f.position(frag.Pos + token.Pos(frag.Length)).Line
 
 					if endLine > startLine {
 						for i := startLine; i < endLine; i++ {
@@ -136,7 +136,7 @@ func (f *fileDecorator) fragment(node ast.Node) {
 			line := 1
 			max := tokenf.Base() + tokenf.Size()
 			for i := tokenf.Base(); i < max; i++ {
-				pos := f.Fset.Position(token.Pos(i))
+				pos := f.position(token.Pos(i))
 				if pos.Line != line {
 
 					// if the line number has changed, we're on a new line
@@ -154,7 +154,7 @@ func (f *fileDecorator) fragment(node ast.Node) {
 					nextLine := line
 					if i < max-1 {
 						// can't peek forward at the end of the file
-						nextLine = f.Fset.Position(token.Pos(i + 1)).Line
+						nextLine = f.position(token.Pos(i + 1)).Line
 					}
 
 					if nextLine != line {
@@ -199,7 +199,7 @@ func (f *fileDecorator) fragment(node ast.Node) {
 	currentIndent := 0
 	for i, frag := range f.fragments {
 		if i == 0 || f.fragments[i-1].Newline() {
-			currentIndent = f.Fset.Position(frag.Position()).Column
+			currentIndent = f.position(frag.Position()).Column
 		}
 		switch frag := frag.(type) {
 		case *decorationFragment:
@@ -549,6 +549,12 @@ func (f *fileDecorator) findIndentedComments(from int, indents [2]int) (frags [2
 		}
 	}
 	return
+}
+
+// position returns the position of p in the source text itself. Line and column numbers that
+// are adjusted by //line directives say nothing about the layout of the file.
+func (f *fileDecorator) position(p token.Pos) token.Position {
+	return f.Fset.PositionFor(p, false)
 }
 
 // sameFile reports whether two fragments lie in the same file of the file set. When a package is
